@@ -7,6 +7,8 @@ from .c01 import FUNCS
 
 def run(chk):
     from .common import per_instance_state_of_modules
+    from .misc_contracts import named_serdes
+    named_serdes(chk, "C14")   # pass-through (callback results) and plain JSON (invoke payloads / results): the round trips replay relies on
     per_instance_state_of_modules(chk, "C14.classes.state_is_per_instance", ['context', 'operation.callback', 'operation.invoke', 'state'])   # no object created in a class body: instances share no mutable state through the class
     ex = explore("callback")
     handler_preamble(chk, ex, FUNCS["callback"])
